@@ -104,6 +104,61 @@ func smlWorker(w *iso.Worker) {
 	prevIdx := -1
 	for i, j := range w.Jobs {
 		w.Begin(i)
+		if j.Family == "concurrent-batch" {
+			// several texts (separated by NUL) parsed at the same moment from as many goroutines: every call returns
+			// normally and what it returns alone (an abort of the process is seen by the parent). The hooks are for
+			// single-goroutine use and are switched off meanwhile.
+			texts := strings.Split(string(j.Input), "\x00")
+			ast.VerifCountListWalks = false
+			hook := sml.VerifHook
+			sml.VerifHook = nil
+			alone := make([]string, len(texts))
+			summ := func(t string) (out string) {
+				defer func() {
+					if r := recover(); r != nil {
+						out = "panic: " + fmt.Sprint(r)
+					}
+				}()
+				msgs, errs, warns := sml.Parse(t)
+				var sb strings.Builder
+				for _, m := range msgs {
+					sb.WriteString(m.String())
+					sb.WriteString("\n")
+				}
+				return sb.String() + fmt.Sprint(errs, warns)
+			}
+			var wg sync.WaitGroup
+			together := make([]string, len(texts))
+			start := make(chan struct{})
+			for k := range texts {
+				wg.Add(1)
+				go func(k int) {
+					defer wg.Done()
+					<-start
+					for rep := 0; rep < 3; rep++ {
+						together[k] = summ(texts[k])
+					}
+				}(k)
+			}
+			close(start)
+			wg.Wait()
+			for k := range texts {
+				alone[k] = summ(texts[k])
+				if alone[k] != together[k] {
+					w.Report(iso.Finding{Index: i, Sig: "C06/result-differs-when-other-calls-are-in-flight", What: fmt.Sprintf("text %q parsed while %d other Parse calls were running gave %q, alone it gives %q", clipS(texts[k]), len(texts)-1, clipS(together[k]), clipS(alone[k])), Family: j.Family})
+					break
+				}
+				if strings.HasPrefix(alone[k], "panic: ") {
+					w.Report(iso.Finding{Index: i, Sig: "C06/panic-escaped/concurrent-batch", What: alone[k], Family: j.Family})
+					break
+				}
+			}
+			sml.VerifHook = hook
+			ast.VerifCountListWalks = true
+			w.Classes["family/"+j.Family]++
+			w.End(i)
+			continue
+		}
 		in := string(j.Input)
 		if len(in) > maxIn {
 			maxIn = len(in)
@@ -409,6 +464,31 @@ func c06InitialJobs(c *ctx, r *rng.R) []iso.Job {
 	for _, d := range []int{10, 1000, c.pick(20000, 100000)} {
 		add("nesting", c06Recipe(fmt.Sprintf("nest-unclosed %d", d)), "")
 	}
+	// texts with thousands of diagnostics (every one reads "Ln x, Col y: text", however many there are)
+	for _, n := range []int{999, 1000, 1001, 1500, 4097, c.pick(5000, 20000)} {
+		add("thousands-of-diagnostics", "S1F1 W H->E <U1 "+strings.Repeat("256 ", n)+"> .", "")
+		add("thousands-of-diagnostics", strings.Repeat("S1F1 W .\n", n), "")
+		add("thousands-of-diagnostics", strings.Repeat("S1F1 W .\n", n)+"S2F2 <I1 "+strings.Repeat("999 ", n/2)+"> .", "")
+		add("thousands-of-diagnostics", "S1F1 W H->E <L "+strings.Repeat("<A 200> ", n)+"> .", "")
+	}
+	// texts parsed at the same moment by several goroutines of one worker process: keyword spellings, names and sizes no
+	// earlier call has seen (whatever the package learns on first sight, it learns under concurrency here)
+	for b := 0; b < c.pick(40, 400); b++ {
+		var texts []string
+		for k := 0; k < 8; k++ {
+			sp := func(w string) string {
+				bs := []byte(w)
+				for q := range bs {
+					if r.Bool() && bs[q] >= 'A' && bs[q] <= 'Z' {
+						bs[q] += 32
+					}
+				}
+				return string(bs)
+			}
+			texts = append(texts, fmt.Sprintf("%s W H->E n%d_%d\n<%s\n  <%s[ %d ] v%d_%d>\n  <%s T F>\n  <%s %d>\n  <%s 1.5>\n  <%s 0x%x>\n  x%d_%d ...>\n.", sp("S1F1"), b, k, sp("L"), sp("A"), 3+k, b, k, sp("BOOLEAN"), sp("U4"), b*8+k, sp("F8"), sp("B"), k, b, k))
+		}
+		add("concurrent-batch", strings.Join(texts, "\x00"), "")
+	}
 	// nests that carry something at the bottom or beside every level: a variable of each kind, an ellipsis, an error
 	// (work per level that depends on what the subtree holds adds up; hook H4 counts it)
 	for _, d := range []int{8, 16, 20, 24, 28, 32, 48, 64, 100, c.pick(200, 1000)} {
@@ -666,7 +746,7 @@ func runC06(c *ctx) {
 		shapeList = shapeList[:120]
 	}
 	c.Extra["diagnostic_shapes"] = shapeList
-	c.Required = []string{"family/token-soup", "family/valid-sequence", "family/mutated-valid", "family/random-bytes", "family/duplicate-variable", "family/exotic-space", "family/hostile-fragment", "family/nesting", "family/nest-with-content", "family/coverage-guided", "family/long-run-in-one-process", "earlier-result-re-read", "hook-reached", "hook-H4-reached", "accepted", "rejected", "order-checked"}
+	c.Required = []string{"family/token-soup", "family/valid-sequence", "family/mutated-valid", "family/random-bytes", "family/duplicate-variable", "family/exotic-space", "family/hostile-fragment", "family/nesting", "family/nest-with-content", "family/coverage-guided", "family/long-run-in-one-process", "family/thousands-of-diagnostics", "family/concurrent-batch", "earlier-result-re-read", "hook-reached", "hook-H4-reached", "accepted", "rejected", "order-checked"}
 }
 
 func replayC06(c *ctx, raw json.RawMessage) {
